@@ -490,6 +490,66 @@ func extractCmdClass(t *T) (string, error) {
 		unregBeforeFiles = closePos != token.NoPos && delPos != token.NoPos && filesPos != token.NoPos && closePos < delPos && delPos < filesPos
 	}
 
+	// every LOGIN attempt reaches the failure counter / the jail wait: no return in GetState before getUserID is
+	// called (the lock is the first statement), none in getUserID before loginWG.Wait(), and in handleLogin none between
+	// the "already authenticated" guard and the call of GetState
+	noReturnBefore := func(file string, fd *ast.FuncDecl, stop func(ast.Stmt) bool) bool {
+		if fd == nil {
+			return false
+		}
+		reached := false
+		okSoFar := true
+		for _, st := range fd.Body.List {
+			if stop(st) {
+				reached = true
+				break
+			}
+			ast.Inspect(st, func(n ast.Node) bool {
+				if _, isFunc := n.(*ast.FuncLit); isFunc {
+					return false
+				}
+				if _, isRet := n.(*ast.ReturnStmt); isRet {
+					okSoFar = false
+				}
+				return true
+			})
+		}
+		return reached && okSoFar
+	}
+	gsFD := FuncDecl(bf, "Backend", "GetState")
+	gsOK := noReturnBefore(bfile, gsFD, func(st ast.Stmt) bool {
+		return strings.Contains(normSrc(t.Src(bfile, st)), "b.getUserID(ctx, username, password)")
+	}) &&
+		gsFD != nil && len(gsFD.Body.List) > 0 && normSrc(t.Src(bfile, gsFD.Body.List[0])) == "b.usersLock.Lock()"
+	guOK := noReturnBefore(bfile, gu, func(st ast.Stmt) bool { return normSrc(t.Src(bfile, st)) == "b.loginWG.Wait()" })
+	hlOK := false
+	{
+		const lfile = "internal/session/handle_login.go"
+		if lf, err := t.ParseFile(lfile); err == nil {
+			if fd := FuncDecl(lf, "Session", "handleLogin"); fd != nil {
+				seenGuard, bad, reached := false, false, false
+				for _, st := range fd.Body.List {
+					src := normSrc(t.Src(lfile, st))
+					if strings.Contains(src, "s.backend.GetState(ctx, cmd.UserID, []byte(cmd.Password), s.sessionID)") {
+						reached = true
+						break
+					}
+					if ifs, ok := st.(*ast.IfStmt); ok && normSrc(t.Src(lfile, ifs.Cond)) == "s.state != nil" {
+						seenGuard = true
+						continue
+					}
+					ast.Inspect(st, func(n ast.Node) bool {
+						if _, isRet := n.(*ast.ReturnStmt); isRet {
+							bad = true
+						}
+						return true
+					})
+				}
+				hlOK = seenGuard && reached && !bad
+			}
+		}
+	}
+
 	var sb strings.Builder
 	sb.WriteString("From Coq Require Import List String NArith Bool.\nImport ListNotations.\nLocal Open Scope string_scope.\n\n")
 	sb.WriteString("Inductive hclass := HAny | HNotAuth | HAuth | HSelected | HOther.\n\n")
@@ -525,6 +585,8 @@ func extractCmdClass(t *T) (string, error) {
 	sb.WriteString(fmt.Sprintf("Definition max_login_attempts : N := %d.\n", maxAttempts))
 	sb.WriteString("Definition login_serialised_and_waits_for_jail_first : bool := " + coqBool(waitFirst && lockHeld) + ".\n")
 	sb.WriteString("Definition login_success_resets_counter : bool := " + coqBool(resetOnSuccess) + ".\n")
+	sb.WriteString("(* no return before the counter / the jail wait in handleLogin (after the BAD guard), GetState, getUserID *)\n")
+	sb.WriteString("Definition login_reaches_counter_on_every_path : bool := " + coqBool(gsOK && guOK && hlOK) + ".\n")
 	sb.WriteString("Definition jail_comparison : string := " + coqString(jailCmp) + ".\n")
 	sb.WriteString("Definition jail_arms_timer_and_answers_blocked : bool := " + coqBool(jailArms) + ".\n")
 	sb.WriteString("Definition jail_timer_resets_counter : bool := " + coqBool(timerResets) + ".\n")
